@@ -9,6 +9,7 @@
 //	    `<done|err=ID|timeout> n=<completion-hook calls> | e1 e2 ...`
 //	    sink b = the sink's consume function blocks until every upstream stage actor has stopped
 //	    (a slow consumer, made deterministic), then drains.
+//	pl2 …  same fields as pl: ONE RunnableGraph value run twice in a row -> `<run 1> ## <run 2>`
 //	st <stage> <initialDemand> <refillThreshold> | ev ev ...
 //	    drives ONE real stage actor between probe actors, one protocol message at a time:
 //	    rN request(N) from downstream, eV element from upstream, c complete, xID error, k cancel,
@@ -291,6 +292,35 @@ func runPipeline(f []string) string {
 	if strings.HasSuffix(fusion, "u") {
 		g = stream.VerifUnboundedMailboxes(g)
 	}
+	// pl2: the SAME RunnableGraph value is materialised twice, one run after the other ("the same graph may
+	// be Run() multiple times to produce independent stream instances"); each run must give the list semantics
+	if f[0] == "pl2" {
+		var res []string
+		for run := 0; run < 2; run++ {
+			mu.Lock()
+			got = nil
+			mu.Unlock()
+			hooks.Store(0)
+			h, err := g.Run(ctx, sys)
+			if err != nil {
+				return "run-error " + err.Error()
+			}
+			status := "done"
+			select {
+			case <-h.Done():
+				if e := h.Err(); e != nil {
+					status = "err=" + errID(e)
+				}
+			case <-time.After(10 * time.Second):
+				status = "timeout"
+				h.Abort()
+			}
+			mu.Lock()
+			res = append(res, fmt.Sprintf("%s n=%d | %s", status, hooks.Load(), strings.Join(got, " ")))
+			mu.Unlock()
+		}
+		return strings.Join(res, " ## ")
+	}
 	h, err := g.Run(ctx, sys)
 	if err != nil {
 		return "run-error " + err.Error()
@@ -455,7 +485,7 @@ func handle(line string) string {
 		return "bad-case"
 	}
 	switch f[0] {
-	case "pl":
+	case "pl", "pl2":
 		if len(f) != 5 {
 			return "bad-case"
 		}
